@@ -52,6 +52,7 @@ def _cex(m):
 
 
 def job_unified(J):
+    J.default_fallback = ("kernels", dict(x1=1, y1=1, z1=1, x2=1, y2=1, z2=1))
     E = loader.MODS["ed25519_basic"]
     PolyInt.MODULUS = E.Q
     d = E.d
@@ -148,6 +149,7 @@ def _c2(n):
 
 
 def job_double(J):
+    J.default_fallback = ("kernels", dict(x1=1, y1=1, z1=1, x2=1, y2=1, z2=1))
     E = loader.MODS["ed25519_basic"]
     ctx = Ctx()
     Ctx.cur = ctx
@@ -164,6 +166,7 @@ def job_double(J):
 
 
 def job_dedicated(J):
+    J.default_fallback = ("kernels", dict(x1=1, y1=1, z1=1, x2=1, y2=1, z2=1))
     E = loader.MODS["ed25519_basic"]
     ctx = Ctx()
     Ctx.cur = ctx
@@ -188,6 +191,7 @@ def job_dedicated(J):
 
 
 def job_completeness(J):
+    J.default_fallback = ("kernels", dict(x1=1, y1=1, z1=1, x2=1, y2=1, z2=1))
     E = loader.MODS["ed25519_basic"]
     Q, dconst = E.Q, E.d
     ctx = Ctx()
@@ -215,6 +219,7 @@ def job_completeness(J):
 
 
 def job_ladder(J):
+    J.default_fallback = ("kernels", dict(x1=1, y1=1, z1=1, x2=1, y2=1, z2=1))
     """induction step of scalarmult_element over abstract points (k = discrete log, prime-order subgroup)"""
     E = loader.MODS["ed25519_basic"]
     L = E.L
@@ -277,6 +282,7 @@ def job_ladder(J):
 
 
 def job_affine(J):
+    J.default_fallback = ("kernels", dict(x1=1, y1=1, z1=1, x2=1, y2=1, z2=1))
     """xform_affine_to_extended / is_extended_zero on polynomial and integer proxies"""
     E = loader.MODS["ed25519_basic"]
     Q = E.Q
